@@ -143,3 +143,19 @@ _reg(
     "DESIGN.md 3/C12",
     "Exploration, flag subsets exhaustive per program (up to 16/64 subsets, sampled beyond and recorded).",
 )
+
+_reg(
+    "C15",
+    "exploration",
+    "cases = 19 programs with parameter tensors on both sides of the 1 MiB spill threshold (n x n float32 for n in {8,511,512,513,600} "
+    "with two different weight sets, several large tensors, large tensors in a loop body / cond branch / function body, float64) exported in "
+    "all four modes (proto, ir->proto, file standard reloaded with sidecar, file web reloaded) + 10 sequences of exports to ONE path "
+    "(standard->web, web->standard, large->small, small->large, large->different large, ...) + missing directory / PathLike / relative path "
+    "/ mutation of a returned ir model; thorough adds 1/6 of the registry. Models are compared by deterministic serialisation after inlining "
+    "external data, by initializer bytes and by ORT outputs. evaluations = mode comparisons + sequence steps; non-trivial = a program/sequence "
+    "whose file modes were really written and reloaded; distinct = program or sequence (both sides of the threshold are required by the floor).",
+    (60, 25, 400, 150),
+    "differential monitor over return/file modes and export histories on one path: protobuf equality after external-data resolution, initializer bytes, ORT outputs",
+    "DESIGN.md 3/C15",
+    "Exploration over return/export modes x parameter sizes on both sides of the spill threshold x sequences of exports to the same path.",
+)
